@@ -395,6 +395,16 @@ def c04_family(tier):
                 out.append(timely(scn(f'relay/k{k}/S{S}/p{ps}-{pc}', [src(N, required='mid', period=ps), relay('mid', ['src'], required='snk'),
                                                                       sink('snk', ['mid'], post)]), **kw))
 
+    # a producer that is slower than the request interval at first (the waiting consumer re-requests several times per frame) and
+    # fast afterwards: duplicate requests must not be banked as credit
+    for k in [3, 5]:
+        S = 1500
+        for topo_name, fs in [('oneof2', lambda: [{**src(N, required='snk,other', period=260), 'period_after': (k, 10)}, sink('snk', ['src'], stall(k, S)),
+                                                   sink('other', ['src;main>x'])]),
+                              ('sole', lambda: [{**src(N, required='snk', period=260), 'period_after': (k, 10)}, sink('snk', ['src'], stall(k, S))])]:
+            sc = timely(scn(f'{topo_name}-slowstart/k{k}/S{S}', fs()), quiet=S + 800, horizon=k * 260 + S + 1200)
+            out.append(sc)
+
     # the stalled consumer also listens to an ephemeral source (listed before / after the synchronized one)
     for order in ['eph-first', 'sync-first']:
         for k in [2]:
@@ -411,7 +421,7 @@ def c04_family(tier):
 
     for s in out:
         s['stall'] = True
-        s['dev_window'] = (0, 1100)     # deviations are enumerated at every choice point of the first 1100 ms (start-up, stall start, settling)
+        s['dev_window'] = (0, 2200 if 'slowstart' in s['name'] else 1100)     # deviations are enumerated at every choice point of the first 1100 ms (start-up, stall start, settling)
 
     return out
 
